@@ -273,6 +273,7 @@ def derived_ops(d, m, C, bs, N, g, fails, warm):
         j = d.add_jitter(1e-2)
         fails.check_close("add_jitter", j.covariance_matrix, C + 1e-2 * torch.eye(N, dtype=F64), 1e-12, 1e-12)
         fails.check_close("add_jitter", j.mean, m, 0, 0)
+        fails.check_close("add_jitter", d.add_jitter().covariance_matrix, C + 1e-4 * torch.eye(N, dtype=F64), 1e-12, 1e-12, "documented default 1e-4")
         n += 1
     return n
 
